@@ -98,6 +98,20 @@ def full(Y):
     return Z.reshape(shp)
 
 
+def erank_ref(Y):
+    """effective rank from the core shapes alone: d = 2 -> r_1; else the positive root r of
+    a r^2 + b r = sum_k r_k n_k r_{k+1}, a = n_1 + ... + n_{d-2}, b = r_0 n_0 + n_{d-1} r_d (a constant-rank tensor of
+    the same size)"""
+    sh = [tuple(int(x) for x in np.shape(G)) for G in Y]
+    d = len(sh)
+    if d == 2:
+        return float(sh[0][2])
+    sz = sum(r1 * n * r2 for r1, n, r2 in sh)
+    a = sum(n for _, n, _ in sh[1:-1])
+    b = sh[0][0] * sh[0][1] + sh[-1][1] * sh[-1][2]
+    return (math.sqrt(b * b + 4.0 * a * sz) - b) / (2.0 * a)
+
+
 def dense_accuracy_on_data(Y, I, y):
     """||Y[I] - y|| / ||y|| from the dense expansion of Y; -1 when the reference values are all zero / missing"""
     if I is None or y is None:
@@ -255,6 +269,14 @@ def oracle_info(tn, cfg, o=None):
             if not feq(info['r'], r):
                 return _fail('info[r] is not the effective rank of the returned tensor', cfg, got=float(info['r']),
                              expected=float(r))
+            rr = erank_ref(Y)
+            if not abs(float(info['r']) - rr) <= 1e-12 * (1 + rr):
+                return _fail('info[r] is not the effective rank of the returned cores (closed form from the core shapes)',
+                             cfg, got=float(info['r']), expected=rr, shapes=[list(np.shape(G)) for G in Y])
+            if info.get('m_max') != (int(cfg['m']) if cfg['m'] else None) or \
+                    info.get('with_cache') is not (cfg['cache'] is not None):
+                return _fail('info[m_max] / info[with_cache] do not describe the arguments', cfg,
+                             got=[info.get('m_max'), info.get('with_cache')])
             ev = tn.accuracy_on_data(Y, o['I_vld'], o['y_vld'])
             if not feq(info['e_vld'], ev):
                 return _fail('info[e_vld] is not the validation error of the returned tensor', cfg,
@@ -462,6 +484,9 @@ def oracle_exact(tn, c):
             return fail(tag + 'result has non-finite entries')
         if any(np.asarray(G).dtype != np.float64 for G in Y):
             return fail(tag + 'returned cores are not float64', got=[str(np.asarray(G).dtype) for G in Y])
+        if not abs(float(info['r']) - erank_ref(Y)) <= 1e-12 * (1 + erank_ref(Y)):
+            return fail(tag + 'info[r] is not the effective rank of the returned cores', got=float(info['r']),
+                        expected=erank_ref(Y), shapes=[list(np.shape(G)) for G in Y])
         err = np.linalg.norm(full(Y) - A) / nA
         if ret and c['kind'] == 'fixed' and not err <= 1e-10:
             return fail(tag + f'float32-exact rank-rho target through an objective returning {ret} not reproduced to '
